@@ -165,7 +165,11 @@ def analyze(ex, stmts, eff=None):
                     eff.assigned.add(t.id)
                 else:
                     r = base_root(t)
-                    if r: eff.mutated.add(r)
+                    if r:
+                        eff.mutated.add(r)
+                        hook = ex.spec.get('on_delete', {}).get(r)
+                        for m in getattr(hook, 'mutates', ()):
+                            eff.mutated.add(m)
         elif isinstance(n, ast.With):
             for it in n.items:
                 if it.optional_vars is not None:
@@ -400,9 +404,13 @@ def check_invs(ex, st, ordinal, invs, what):
             raise SpecError('loop %s invariant %s: %s' % (ordinal, name, e))
         # an invariant marked 'post' states the property itself at the loop
         # entry (e.g. argument normalisation), not a proof step
-        ex.oblige(st, 'loop%s/%s:%s' % (ordinal, what, name), goal,
-                  kind if (kind and what == 'entry') else 'inv-' + what,
-                  note=text)
+        # an invariant marked 'post' states the property itself at the loop
+        # entry; one marked 'dsinv' is a data-structure invariant that *is* the
+        # property (e.g. token ownership): its preservation is property-level
+        k = 'inv-' + what
+        if kind == 'dsinv' or (kind and what == 'entry'):
+            k = kind
+        ex.oblige(st, 'loop%s/%s:%s' % (ordinal, what, name), goal, k, note=text)
 
 
 def assume_invs(ex, st, ordinal, invs):
